@@ -132,6 +132,11 @@ def run(e: Engine, rep: Report):
     rep.rule('R1.21', '= C19-L12: relay greenlets are killed only from '
              'kill()')
     _c19.l12(e, rep, 'R1.21')
+    rep.rule('R1.22', '= C12-Q12: the id index of the timetable is updated '
+             'with ids, never with timetable entries (a stale id makes '
+             '_add_queued refuse the re-queue: the message is never '
+             'attempted again)')
+    _c12.q12(e, rep, 'R1.22')
     rep.floor('R1.2', 5, 'removal sites')
     rep.floor('R1.5', 3, 'backend uses of the index argument')
 
